@@ -619,11 +619,14 @@ fn parse_escape_sequence<'a>(
                 'r' => '\r',
                 't' => '\t',
                 'u' if input.peek() == Some('{') => {
+                    let checkpoint = input.save();
                     input.next(); // consume '{'
                     let mut hex = String::new();
+                    let mut closed = false;
                     while let Some(ch) = input.peek() {
                         if ch == '}' {
                             input.next();
+                            closed = true;
                             break;
                         }
                         if ch.is_ascii_hexdigit() && hex.len() < 6 {
@@ -633,9 +636,18 @@ fn parse_escape_sequence<'a>(
                             break;
                         }
                     }
-                    char::from_u32(u32::from_str_radix(&hex, 16).unwrap_or(0)).unwrap_or('\u{FFFD}')
+                    if closed && !hex.is_empty() {
+                        char::from_u32(u32::from_str_radix(&hex, 16).unwrap_or(0))
+                            .unwrap_or('\u{FFFD}')
+                    } else {
+                        // Not an escape: keep the character after the backslash
+                        // and everything that follows it
+                        input.rewind(checkpoint);
+                        next_ch
+                    }
                 }
                 'x' => {
+                    let checkpoint = input.save();
                     let mut hex = String::new();
                     for _ in 0..2 {
                         if let Some(ch) = input.peek() {
@@ -649,7 +661,10 @@ fn parse_escape_sequence<'a>(
                         char::from_u32(u32::from_str_radix(&hex, 16).unwrap_or(0))
                             .unwrap_or('\u{FFFD}')
                     } else {
-                        next_ch // Just use the character after backslash
+                        // Just use the character after backslash, and keep a
+                        // lone hex digit that follows it
+                        input.rewind(checkpoint);
+                        next_ch
                     }
                 }
                 c if c == quote_char => quote_char, // Escaped quote
